@@ -68,11 +68,16 @@ func (m *mrtWriter) dumpTable() []*mrt.MRTMessage {
 	peermap := make(map[netip.Addr]dumpPeer)
 
 	idx := func(p *table.Path) uint16 {
-		if p, ok := peermap[p.GetSource().Address]; ok {
+		addr := p.GetSource().Address
+		if !addr.IsValid() {
+			// the source of a locally generated route has no address
+			addr = netip.IPv4Unspecified()
+		}
+		if p, ok := peermap[addr]; ok {
 			return p.index
 		}
 		newIdx := uint16(len(peermap))
-		if p.GetSource().Address == netip.IPv4Unspecified() {
+		if addr == netip.IPv4Unspecified() {
 			// Adding dummy Peer record for locally generated routes
 			peermap[netip.IPv4Unspecified()] = dumpPeer{
 				index: newIdx,
